@@ -12,18 +12,17 @@ PROVED = [
     'kernel_annihilates [P]: HNF::kernel = first k rows of U, each annihilated by A, count k = n - #rows H',
     'kernel_basis [P]: the kernel rows are Z-linearly independent and every integer x with x*A = 0 is an integer combination of them (saturated basis)',
     'kernel_empty_when_independent [P]',
+    'hnf_U_det [P]: \\det U = 1 or -1 (MathComp Leibniz determinant of the matrix view zmx n n U; from the two-sided integer inverse via det_mulmx, bridge in coq/Refine/DetBridge.v)',
+    'kernel_rank / kernel_rank_count [P]: #rows H = \\rank of A over Q (matrix mapped into Qc) and k = n - rank; HNF::kernel returns exactly n - rank rows',
 ]
-NOT_PROVED = [
-    'det U = +-1 as a determinant statement (proved in the equivalent form: two-sided integer inverse); checked by the oracle (Bareiss) on every case',
-    'k = n - rank(A) with rank over Q: proved as k = n - #rows H with the rows of H an independent generating set (C02); rank over Qc not formalised (oracle-checked)',
-]
+NOT_PROVED = []
 
 CLAIM = dict(
     technique='Coq proof about the Gallina model of hnf_with_u/hnf_with_ker/HNF::kernel (coq/Model/Hnf.v, coq/Refine/HnfMain.v, HnfKernel.v) + extracted-model-vs-implementation correspondence',
-    text='For all integer matrices with n, m >= 1: U has a two-sided integer inverse and U*A = [0_k ; H]; HNF::kernel returns the first k rows of U, which are annihilated by A, '
-         'linearly independent and generate every integer solution of x*A = 0; k = n - #rows H, empty when the rows of A are independent. '
+    text='For all integer matrices with n, m >= 1: U has a two-sided integer inverse, det U = +-1, and U*A = [0_k ; H]; HNF::kernel returns the first k rows of U, which are annihilated by A, '
+         'linearly independent and generate every integer solution of x*A = 0; k = n - #rows H = n - rank(A) with the rank taken over Q (MathComp \\rank), empty when the rows of A are independent. '
          'Model tied to /repo by the correspondence runs (exhaustive small tall matrices, planted rank deficiency up to 2^200, edge stream).',
-    note='Unimodularity is proved as existence of an integer inverse, not as det = +-1; rank over Q is oracle-checked only.',
+    note='det and rank are MathComp\'s \\det / \\rank of the matrix view zmx (entries read from the lists) resp. its image in Qc; the bridge lemmas are in coq/Refine/DetBridge.v.',
     ref='DESIGN.md section 4, C03')
 
 def has_kernel(a):
